@@ -272,6 +272,12 @@ def rule_consumed_count(ctx, idx, rid="R09.4"):
                               ("method", "and"): lambda itp, rv, args, env: args[0] if rv is not None else None,
                               ("method", "xor"): lambda itp, rv, args, env: (rv if args[0] is None else (args[0] if rv is None else None)),
                               ("method", "unwrap_or"): lambda itp, rv, args, env: rv if rv is not None else args[0],
+                              ("method", "map_or"): lambda itp, rv, args, env: args[0] if rv is None else itp.apply_closure(args[1], [rv]),
+                              ("method", "map_or_else"): lambda itp, rv, args, env: itp.apply_closure(args[0], []) if rv is None else itp.apply_closure(args[1], [rv]),
+                              ("method", "map"): lambda itp, rv, args, env: None if rv is None else itp.apply_closure(args[0], [rv]),
+                              ("method", "and_then"): lambda itp, rv, args, env: None if rv is None else itp.apply_closure(args[0], [rv]),
+                              ("method", "unwrap_or_else"): lambda itp, rv, args, env: rv if rv is not None else itp.apply_closure(args[0], []),
+                              ("method", "or_else"): lambda itp, rv, args, env: rv if rv is not None else itp.apply_closure(args[0], []),
                               ("method", "unwrap_or_default"): lambda itp, rv, args, env: rv if rv is not None else 0,
                               ("method", "is_some"): lambda itp, rv, args, env: rv is not None,
                               ("method", "is_none"): lambda itp, rv, args, env: rv is None})
